@@ -36,3 +36,22 @@ Definition bg_lock : N * N * N * option N := (128, 0, 0, None).  (* 0200, 00, 00
 Definition bg_pid : N * N * N * option N := (438, 0, 18, None).  (* 0666, 00, 022 *)
 Definition bg_log : N * N * N * option N := (438, 0, 23, None).  (* 0666, 00, 027 *)
 Definition bg_seed : N * N * N * option N := (384, 0, 0, None).  (* 0600, 00, 00 *)
+(* how each file is created: (the name is unlinked first, O_EXCL, O_NOFOLLOW), from the same traces *)
+Definition fg_sock_how : bool * bool * bool := (true, false, false).
+Definition fg_lock_how : bool * bool * bool := (false, false, false).
+Definition fg_pid_how : bool * bool * bool := (false, false, false).
+Definition fg_seed_how : bool * bool * bool := (true, false, false).
+Definition bg_sock_how : bool * bool * bool := (true, false, false).
+Definition bg_lock_how : bool * bool * bool := (false, false, false).
+Definition bg_pid_how : bool * bool * bool := (false, false, false).
+Definition bg_log_how : bool * bool * bool := (false, false, false).
+Definition bg_seed_how : bool * bool * bool := (true, false, false).
+(* which of the process's user ids each ownership test compares with, observed by starting munged with
+   real uid <> effective uid and the file (directory) in question owned by either *)
+Definition id_real : N := 0.
+Definition id_effective : N := 1.
+Definition dir_owner_id : N := 1.
+Definition key_owner_id : N := 1.
+Definition seed_owner_id : N := 1.
+Definition log_owner_id : N := 1.
+Definition lock_owner_id : N := 1.
